@@ -60,7 +60,8 @@ def variants_of(task):
         for nm, fn in sorted((k, v) for k, v in _.items() if isinstance(v, _fp.Function) and v is not f):
             add('inline(funcs=[%s])' % nm, lambda fn=fn: st.inline(f, funcs=[fn]))
         add('inline>simplify', lambda: st.simplify(st.inline(f)))
-    for C, nm in ((fp.MPSFloatContext(3, -2), 'MPS(3,-2)'), (fp.MPSFloatContext(4, -3, fp.RM.RTZ), 'MPS(4,-3,RTZ)'), (fp.MPFloatContext(2, fp.RM.RTP), 'MP(2,RTP)')):
+    for C, nm in ((fp.MPSFloatContext(3, -2), 'MPS(3,-2)'), (fp.MPSFloatContext(4, -3, fp.RM.RTZ), 'MPS(4,-3,RTZ)'), (fp.MPFloatContext(2, fp.RM.RTP), 'MP(2,RTP)'),
+                  (fp.MPSFloatContext(3, -2, fp.RM.RTN), 'MPS(3,-2,RTN)')):      # the format of the corpus's C3 / C3UP with another rounding mode
         add('monomorphize(ctx=%s)' % nm, lambda: st.monomorphize(f, C), (C, None))
         if nsite:
             add('monomorphize(ctx=%s)>inline' % nm, lambda: st.inline(st.monomorphize(f, C)), (C, None))
@@ -83,7 +84,7 @@ def describe(tier):
         functions=['strategies.inline/monomorphize/close/lift_context', 'transform.func_inline/monomorphize/specialize/free_var_elim/lift_context', 'analysis.call_graph', 'module', 'interpret.byte on original and result (symbolic arguments)'],
         files=[R + 'strategies/func_inline.py', R + 'strategies/mono.py', R + 'strategies/free_var.py', R + 'strategies/context_lift.py', R + 'transform/func_inline.py', R + 'transform/monomorphize.py',
                R + 'transform/specialize.py', R + 'transform/free_var_elim.py', R + 'transform/lift_context.py', R + 'analysis/call_graph.py', R + 'module.py'],
-        bounds=dict(programs=len(_programs(tier)), pinned_contexts=3, argument_significand_bits=tv.TIER[tier]['CW']),
+        bounds=dict(programs=len(_programs(tier)), pinned_contexts=4, argument_significand_bits=tv.TIER[tier]['CW']),
         outside=['monomorphize with pinned argument types', 'programs outside the corpus'],
         stubs=['validated operation summaries; int / Fraction proxies; number formatting'],
         assumptions=['monomorphize(ctx=C): original evaluated with ctx=C, result with no context'],
